@@ -436,6 +436,7 @@ func (s *session) newManifest(rec *sessionRecord, v *version) (err error) {
 			s.manifestFd = fd
 			s.manifestWriter = writer
 			s.manifest = jw
+			s.manifestFailed = false
 		} else {
 			writer.Close()
 			if rerr := s.stor.Remove(fd); err != nil {
@@ -469,6 +470,9 @@ func (s *session) newManifest(rec *sessionRecord, v *version) (err error) {
 
 // Flush record to disk.
 func (s *session) flushManifest(rec *sessionRecord) (err error) {
+	defer func() {
+		s.manifestFailed = err != nil
+	}()
 	s.fillRecord(rec, false)
 	w, err := s.manifest.Next()
 	if err != nil {
